@@ -64,6 +64,53 @@ func init() {
 			m.choices = append(m.choices, lo+k)
 			return m.C.BVC(uint64(int64(lo+k)), 64)
 		},
+		// vfProbe(name, funcs, lo, hi): a size from lo..hi or just beyond one of the integer constants the named repository
+		// functions (and what they call) compare things with - see thresholds.go. Recorded like a vfRange choice.
+		"vfProbe": func(m *Machine, fr *frame, fn *ssa.Function, a []Value) Value {
+			lo := int(m.concretize(a[2].(T), true))
+			hi := int(m.concretize(a[3].(T), true))
+			if hi < lo {
+				m.end(StAssumeFalse, "empty vfProbe")
+			}
+			var sizes []int
+			for v := lo; v <= hi; v++ {
+				sizes = append(sizes, v)
+			}
+			for _, c := range m.P.codeThresholds(m.concStr(a[1])) {
+				for _, v := range []int{int(c) + 1, int(c) + 2} {
+					if v > hi {
+						sizes = append(sizes, v)
+					}
+				}
+			}
+			k := m.choose("choose", len(sizes), nil)
+			m.choices = append(m.choices, sizes[k])
+			if sizes[k] > hi {
+				m.Res.Probed = append(m.Res.Probed, sizes[k])
+			}
+			return m.C.BVC(uint64(int64(sizes[k])), 64)
+		},
+		// vfProbeDuration(name, funcs, base): base, or 20% beyond one of the time.Duration constants (1 ms .. 10 s) that the
+		// named repository functions (and what they call) mention - a hidden timeout in the CURRENT source is exceeded
+		"vfProbeDuration": func(m *Machine, fr *frame, fn *ssa.Function, a []Value) Value {
+			base := m.concretize(a[2].(T), true)
+			ds := []int64{base}
+			for _, c := range m.P.codeDurations(m.concStr(a[1])) {
+				if v := c + c/5; v > base {
+					ds = append(ds, v)
+				}
+			}
+			k := m.choose("choose", len(ds), nil)
+			m.choices = append(m.choices, int(ds[k]))
+			if k > 0 {
+				m.Res.Probed = append(m.Res.Probed, int(ds[k]))
+			}
+			return m.C.BVC(uint64(ds[k]), 64)
+		},
+		// vfCtxDone(ctx): has this context been cancelled (natively: ctx.Err() != nil)
+		"vfCtxDone": func(m *Machine, fr *frame, fn *ssa.Function, a []Value) Value {
+			return m.ctxCancelled(a[0])
+		},
 		"vfConcrete": func(m *Machine, fr *frame, fn *ssa.Function, a []Value) Value {
 			v := m.concretize(a[0].(T), true)
 			return m.C.BVC(uint64(v), 64)
@@ -147,6 +194,12 @@ func init() {
 		},
 		"vfSetMapOrder": func(m *Machine, fr *frame, fn *ssa.Function, a []Value) Value {
 			m.mapOrder = int(m.concretize(a[0].(T), true))
+			return nil
+		},
+		// vfSetPoolMode(1): sync.Pool behaves as a plain LIFO cache (Get returns the most recently Put object, New() when
+		// there is none; nothing is dropped) - what a single goroutine normally sees; no decision is spent on it.
+		"vfSetPoolMode": func(m *Machine, fr *frame, fn *ssa.Function, a []Value) Value {
+			m.poolMode = int(m.concretize(a[0].(T), true))
 			return nil
 		},
 		"vfSetDelayBound": func(m *Machine, fr *frame, fn *ssa.Function, a []Value) Value {
